@@ -219,7 +219,7 @@ word_el = st.one_of(
     st.tuples(st.just("rz"), st.sampled_from([0.0, math.pi, -math.pi / 2])),
     st.tuples(st.just("ry"), st.sampled_from([0.0, math.pi, math.pi / 2])),
 )
-word_st = st.fixed_dictionaries({"word": st.lists(word_el, min_size=1, max_size=7), "n_batch": st.integers(1, 3)})
+word_st = st.fixed_dictionaries({"word": st.lists(word_el, min_size=1, max_size=7), "n_batch": st.integers(1, 3), "close_with_inv": st.booleans()})
 
 
 def _lib_el(kind, x, SU2M, tf, nb):
@@ -272,10 +272,25 @@ def su2_euler_roundtrip(ctx, case):
     unit_err = np.abs(U.conj().T @ U - np.eye(2)).max()
     if unit_err > 1e-9:
         return {"skip": "closing_not_unitary_numerically"}
-    M = None
-    for k, x in full:
-        e = _lib_el(k, x, SU2M, tf, nb)
-        M = e if M is None else M * e
+    def lib_prod(seq):
+        P = None
+        for k, x in seq:
+            e = _lib_el(k, x, SU2M, tf, nb)
+            P = e if P is None else P * e
+        return P
+
+    if closing and case.get("close_with_inv"):
+        # the way the library composes alignment rotations: A * inv(H), with
+        # H = Rz(p)Ry(t) Bz(+w) Ry(-t)Rz(-p) built forward and inverted by inv()
+        Hseq = [(k, -x if k == "bz" else x) for k, x in closing]
+        M = lib_prod(word) * lib_prod(Hseq).inv()
+    else:
+        M = lib_prod(full)
+    # inverse law on the (generally non-unitary) rotation-boost word itself
+    Aw = lib_prod(word)
+    Ai = Aw * Aw.inv()
+    Xa = np.array([[np.asarray(Ai["x"][i][j]) for j in range(2)] for i in range(2)])
+    ctx.close(Xa[:, :, 0], np.eye(2), "su2_inverse", rtol=0, atol=1e-8 * max(1.0, np.abs(A).max() ** 2), what="A*A.inv() for the boost-containing word")
     # library product equals numpy product
     X = np.array([[np.asarray(M["x"][i][j]) for j in range(2)] for i in range(2)])  # (2,2,nb)
     for b in range(nb):
@@ -303,6 +318,8 @@ def su2_euler_roundtrip(ctx, case):
         cls.append("beta~pi")
     if has_boost:
         cls.append("with_boost")
+    if closing and case.get("close_with_inv"):
+        cls.append("closed_by_inv_of_boost_word")
     return {"nontrivial": has_boost and len(word) >= 2, "classes": cls}
 
 
